@@ -68,6 +68,9 @@ def gen_case(rng, name):
             if centred and cfg["cls"] in ("SumScaler", "VectorScaler", "MaxAbsScaler") \
                     and cfg["params"].get("target") in ("weights", "both"):
                 continue     # mean-centred weights sum to zero up to rounding: dividing by that sum is 0/0, not a problem statement
+            if cfg["cls"] == "CRITIC" and len({tuple(r) for r in c["matrix"]}) < 3:
+                continue     # two distinct alternatives: every pair of criteria is perfectly correlated, CRITIC is 0/0
+                             # there (the recorded finding of C13) - not a problem statement either
             if cfg["cls"] == "MinMaxScaler":
                 cfg["params"]["criteria_range"] = [1.0, 2.0] if name in ("fmf", "multimoora") else cfg["params"]["criteria_range"]
             steps.append(cfg)
